@@ -243,11 +243,14 @@ fn gen_op(g: &Geometry, hot: usize) -> Op {
             let v = gen_view(g);
             let page = gen_page(g, hot);
             let addr = page * ps + c.a(ps.min(64) as u32) as usize;
-            let len = match c.a(5) {
+            let len = match c.a(7) {
                 0 => 1,
                 1 => ps,
                 2 => 1 + c.a((3 * ps).min(4096) as u32) as usize,
                 3 => ps * (1 + c.a(4) as usize),
+                // long ranges: complete a partly dirty word, span whole words
+                4 => ps * (8 + c.a(60) as usize),
+                5 => ps * 32,
                 _ => 1 + c.a(3) as usize,
             };
             // the view adds its base; aim so that base+off == addr when possible
@@ -398,10 +401,13 @@ fn judge_c08(g: &Geometry, bm: &Arc<AtomicBitmap>, prog: &[Vec<Op>], res: &[Vec<
             cx().violate("C08", "C08/phantom", "phantom in final map".into(), format!("[{}] page {} set at the end but nobody marked it (page count {})", label, b, n));
         }
     }
+    // every report of a page (a harvest containing it, or its bit still set at the end) consumes one
+    // 0 -> 1 transition, and each mark operation makes at most one such transition per page
     for (&b, &k) in &harvested {
         let m = marked.get(&b).copied().unwrap_or(0);
-        if k > m {
-            cx().violate("C08", "C08/duplication", "duplicate harvest".into(), format!("[{}] page {} harvested {} times but marked only {} time(s)", label, b, k, m));
+        let total = k + fin.contains(&b) as usize;
+        if total > m {
+            cx().violate("C08", "C08/duplication", "duplicate harvest".into(), format!("[{}] page {} was reported {} time(s) ({} harvest(s){}) but marked only {} time(s)", label, b, total, k, if fin.contains(&b) { " and still set at the end" } else { "" }, m));
         }
     }
     // conservation
